@@ -8,11 +8,15 @@ Open Scope Z_scope.
 (* 1. nan-sum: for EVERY number of worker threads (also more threads than elements) the chunked
       reduction returns the sum of the non-null elements, 0 if there is none *)
 Theorem C20_nansum_float arr n : (0 < n)%nat -> nan_reduce fops NSum arr n = sum_list fops (nonnull fops arr).
-Proof. exact (nansum_any_threads fops fops_laws fops_sum_closed arr n). Qed.
+Proof. exact (nansum_any_threads fops fops_laws arr n). Qed.
 Print Assumptions C20_nansum_float.
-Theorem C20_nansum_int nullv arr n : (0 < n)%nat ->
-  nan_reduce (zops false nullv) NSum arr n = sum_list (zops false nullv) (nonnull (zops false nullv) arr).
-Proof. exact (nansum_any_threads _ (zops_laws false nullv) (zops_never_null_closed nullv) arr n). Qed.
+(* integers (nullable = true: int64 / timestamps through the numba is_null, which reads -2^63 as null).  No side
+   condition on the partial sums: since /repo fix "partial sums of the pieces are added without looking for nulls"
+   a piece whose sum equals the sentinel is not skipped by the second stage (before it, this theorem needed
+   sum_closed — the hypothesis the proof forced was a defect: nansum([-2^62, -2^62, 5, 1], n_threads=2) gave 6) *)
+Theorem C20_nansum_int nullable nullv arr n : (0 < n)%nat ->
+  nan_reduce (zops nullable nullv) NSum arr n = sum_list (zops nullable nullv) (nonnull (zops nullable nullv) arr).
+Proof. exact (nansum_any_threads _ (zops_laws nullable nullv) arr n). Qed.
 Print Assumptions C20_nansum_int.
 
 (* 1b. nan-max / nan-min: for every number of worker threads the maximum (minimum) of the non-null elements,
@@ -35,7 +39,7 @@ Print Assumptions C20_nanmin_int.
 (* 1c. the sum of squares behind nanvar / nanstd, for every number of threads *)
 Theorem C20_nansumsq_float arr n : (0 < n)%nat ->
   nan_reduce fops NSumSquare arr n = sum_list fops (map (sq fops) (nonnull fops arr)).
-Proof. exact (nansumsq_any_threads fops fops_laws fops_sum_closed arr n). Qed.
+Proof. exact (nansumsq_any_threads fops fops_laws arr n). Qed.
 Print Assumptions C20_nansumsq_float.
 
 (* 2. the split of the array among the threads loses and duplicates nothing *)
